@@ -2726,3 +2726,54 @@ def stored_is_read_back_run(size_sym: Any, edit_sym: Any, path_sym: Any, who_sym
                 return True
             finally:
                 w.close()
+
+
+def message_redelivery_roundtrip_run(kind_sym: Any, val_sym: Any, how_sym: Any) -> bool:
+    """C19 for messages on the real sqlite3 + json: a message whose dict field holds awkward values (None,
+    nested None, empty containers, non-ASCII) is delivered, sent back (reschedule after a handler error,
+    or its lock lapses) and delivered again: every delivery carries exactly what was pushed."""
+    import copy as _copy
+    from datetime import timedelta
+
+    from stabilize.queue.messages import AddMultiInstance, JumpToStage, SignalStage
+
+    with hx.Path("message_redelivery_roundtrip") as P:
+        with hx.native():
+            vals = [
+                {"previous_error": None, "attempt": 2},
+                {"a": {"b": None, "c": [None, 1, {"d": None}]}, "e": ""},
+                {},
+                {"n": 0, "f": False, "z": [], "o": {}},
+                {"uni": "\u00e9\u4e2d\"\\", "k": None},
+            ]
+            val = vals[hx.pick(val_sym, len(vals))]
+            kind = hx.pick(kind_sym, 3)
+            how = hx.pick(how_sym, 2)  # 0: reschedule() after set_error_context, 1: the lock lapses
+            w = World(lock_seconds=1.0)
+            try:
+                if kind == 0:
+                    msg: Any = SignalStage(execution_id="e1", stage_id="s1", signal_name="go", signal_data=_copy.deepcopy(val), persistent=True)
+                    fld = "signal_data"
+                elif kind == 1:
+                    msg = JumpToStage(execution_id="e1", stage_id="s1", target_stage_ref_id="t", jump_context=_copy.deepcopy(val), jump_outputs=_copy.deepcopy(val))
+                    fld = "jump_context"
+                else:
+                    msg = AddMultiInstance(execution_id="e1", stage_id="s1", instance_context=_copy.deepcopy(val))
+                    fld = "instance_context"
+                w.queue.push(msg)
+                P.reached("%s %d %d" % (fld, hx.pick(val_sym, len(vals)), how), {"message": type(msg).__name__, "field": fld, "value": val, "sent_back_by": ["reschedule", "lock lapse"][how]})
+                info = {"message": type(msg).__name__, "field": fld, "pushed": val, "sent_back_by": ["reschedule", "lock lapse"][how]}
+                for delivery in (1, 2, 3):
+                    if not w.make_visible():
+                        return P.fail("C19/redelivery/message_gone_before_delivery_%d" % delivery, info)
+                    got = w.queue.poll_one()
+                    if got is None:
+                        return P.fail("C19/redelivery/not_delivered_%d" % delivery, info)
+                    if getattr(got, fld) != val or (kind == 1 and got.jump_outputs != val):
+                        return P.fail("C19/redelivery/delivery_%d_differs_from_what_was_pushed/%s" % (delivery, type(msg).__name__), {**info, "delivered": getattr(got, fld)})
+                    if how == 0:
+                        got.set_error_context(ValueError("boom"))
+                        w.queue.reschedule(got, timedelta(seconds=2))
+                return True
+            finally:
+                w.close()
